@@ -195,37 +195,41 @@ def unhoist_function(fn, ref_fn):
                         ok = False
                     elif stores.get(nm, 0) == 1 and not _loop_binder_ok(fn, pm, n, nm):
                         ok = False
-                # the attribute path itself must not be assigned in this function (the local would keep the old object)
-                cur = val
-                while isinstance(cur, ast.Subscript):
-                    cur = cur.value
-                if isinstance(cur, ast.Attribute) and ast.unparse(cur) in attr_st and isinstance(val, ast.Attribute):
-                    # ... unless every such assignment comes after the last read of the local (and no loop brings it back
-                    # before one): `d = self._x ... use(d) ... self._x = new`
-                    path = ast.unparse(cur)
-                    last_use = max(x.lineno for x in loads)
-                    for st_ in ast.walk(fn):
-                        if isinstance(st_, (ast.Attribute, ast.Subscript)) and not isinstance(st_.ctx, ast.Load):
-                            b_ = st_
-                            while isinstance(b_, ast.Subscript):
-                                b_ = b_.value
-                            if not (isinstance(b_, ast.Attribute) and ast.unparse(b_) == path and b_ is st_):
-                                continue
-                            stmt_ = st_
-                            while stmt_ in pm and not isinstance(stmt_, ast.stmt):
-                                stmt_ = pm[stmt_]
-                            in_stmt = {id(x) for x in ast.walk(stmt_)}
-                            # reads inside the assigning statement itself happen before the assignment
-                            if stmt_.lineno > n.lineno and any(id(u) not in in_stmt and u.lineno > stmt_.lineno for u in loads):
+                # what the value reads must not be written between the binding and a use of the local: rebinding of an attribute
+                # the value starts from (`self._x = ...`: an alias of the attribute itself would keep the old object) and, for a
+                # value that reads *into* a table (`self._t[k]`, `self._t[k] + 1`), any store into that table
+                alias_of_attr = isinstance(val, ast.Attribute)
+                bases = set()
+                for x in ast.walk(val):
+                    if isinstance(x, ast.Attribute):
+                        bases.add(ast.unparse(x))
+                for st_ in ast.walk(fn):
+                    if not (isinstance(st_, (ast.Attribute, ast.Subscript)) and not isinstance(st_.ctx, ast.Load)):
+                        continue
+                    b_ = st_
+                    while isinstance(b_, ast.Subscript):
+                        b_ = b_.value
+                    if not (isinstance(b_, ast.Attribute) and ast.unparse(b_) in bases):
+                        continue
+                    if b_ is not st_ and alias_of_attr:
+                        continue          # a store *into* the object the alias names is seen through the alias as well
+                    stmt_ = st_
+                    while stmt_ in pm and not isinstance(stmt_, ast.stmt):
+                        stmt_ = pm[stmt_]
+                    in_stmt = {id(x) for x in ast.walk(stmt_)}
+                    # reads inside the assigning statement itself happen before the assignment
+                    if stmt_.lineno > n.lineno and any(id(u) not in in_stmt and u.lineno > stmt_.lineno for u in loads):
+                        ok = False
+                    if isinstance(stmt_, ast.AugAssign) and stmt_.lineno > n.lineno and any(id(u) in in_stmt for u in loads):
+                        ok = False        # `t[k] += v` with v reading t[k]: keep
+                    c_ = st_
+                    while c_ in pm:
+                        c_ = pm[c_]
+                        if isinstance(c_, (ast.For, ast.While)):
+                            inside_def = any(x is n for x in ast.walk(c_))
+                            inside_use = any(x is u for u in loads for x in ast.walk(c_))
+                            if inside_use and not inside_def:
                                 ok = False
-                            c_ = st_
-                            while c_ in pm:
-                                c_ = pm[c_]
-                                if isinstance(c_, (ast.For, ast.While)):
-                                    inside_def = any(x is n for x in ast.walk(c_))
-                                    inside_use = any(x is u for u in loads for x in ast.walk(c_))
-                                    if inside_use and not inside_def:
-                                        ok = False
                 if ok:
                     s = _Sub(v, val)
                     s.visit(fn)
